@@ -328,6 +328,17 @@ func emCells(cells []*dto.LabelPair) string {
 // label values of the write/reg/gather streams: the empty string is a value like any other
 var lvPool = []string{"1", "2", "", "1"}
 
+// confusable returns one of two label pairs whose name+sep+value coincide ({"q":"r=s"} / {"q=r":"s"});
+// both variants are used by different wrappers within one run of the driver, in both orders
+// ("q=r" is a legal label name under UTF-8 validation).
+func confusable(r *emit.Rng) (string, string) {
+	sep := []string{"=", "=", ",", ":", "|", " ", "\x00", "/", "\"", "=\""}[r.Intn(10)]
+	if r.Bool() {
+		return "q", "r" + sep + "s"
+	}
+	return "q" + sep + "r", "s"
+}
+
 var cellNames = []string{"b", "d", "f", "h", "j", "l"}
 var addNames = []string{"a", "c", "e", "g", "zz", "aa", "k"}
 
@@ -345,6 +356,10 @@ func genSingleLayers(r *emit.Rng, max int, names []string, conflict []string) []
 					nm = conflict[r.Intn(len(conflict))]
 				}
 				m[nm] = lvPool[r.Intn(len(lvPool))]
+			}
+			if r.Chance(1, 6) {
+				cn, cv := confusable(r)
+				m[cn] = cv
 			}
 			ls[i] = layer{labels: m}
 		}
@@ -1034,6 +1049,13 @@ func gatherStream(c *cli.Ctx, r *emit.Rng, n int) error {
 				ls[j] = layer{labels: m}
 			}
 		}
+		confused := false
+		if r.Chance(1, 3) {
+			cn, cv := confusable(r)
+			ls = append(ls, layer{labels: prometheus.Labels{cn: cv}})
+			nl++
+			confused = true
+		}
 		ok := true
 		r0 := prometheus.NewRegistry()
 		if err := r0.Register(col); err != nil {
@@ -1081,6 +1103,9 @@ func gatherStream(c *cli.Ctx, r *emit.Rng, n int) error {
 		}
 		if pedantic {
 			style += "+pedantic"
+		}
+		if confused {
+			w.Tag("gather:confusable-pair", 1)
 		}
 		w.Add(emit.Tup("3", emLayers(ls), emFams(f0), emFams(f1), emFams(f2), emit.B(ok), emit.I(len(f3))),
 			len(f0) > 0, "gather:coll="+kind, style, fmt.Sprintf("gather:layers=%d", nl), fmt.Sprintf("gather:added-labels=%d", len(used)))
